@@ -95,6 +95,9 @@ class Chan(Engine):
                     n -= 1
                 if rng.random() < 0.15:
                     steps.append({'op': 'crafted', 'hrp': hrp, 'ver': rng.randint(0, 16), 'seed': rng.randrange(256)})
+                if rng.random() < 0.12:
+                    steps.append({'op': 'caseless', 'hrp': rng.choice(['2', '42', '_', '00', '7-7', '!', '3.3']), 'ver': rng.choice([5, 7, 10, 15]),
+                                  'nbytes': rng.choice([5, 5, 10, 20, 40]), 'seed': rng.randrange(1 << 30)})
                 if rng.random() < 0.5:
                     steps.append({'op': 'steered', 'hrp': hrp, 'ver': ver, 'prog': gen.rhex(rng, n), 'other': [rng.randrange(32) for _ in range(6)]})
                 steps.append({'op': 'bech32', 'hrp': hrp, 'ver': ver, 'prog': gen.rhex(rng, n),
@@ -132,6 +135,13 @@ class Chan(Engine):
                 P({'op': 'str_range', 'len': 3, 'lo': lo, 'hi': min(58 ** 3, lo + 8192)})
             for v in range(0, 256, 32):
                 P({'op': 'short_range', 'lo': v, 'hi': v + 32})
+            # runs of the zero digit far beyond the usual: past the interpreter's recursion limit (1000 by
+            # default) and past 2**12; as raw bytes, as text, and as a version-0 Base58Check payload
+            for nz in (999, 1000, 1001, 1200, 5000):
+                P({'op': 'raw', 'bytes': '00' * nz + 'a5' * (nz % 3)})
+                P({'op': 'str', 'text': '1' * nz + ('2g' if nz % 2 else ''), 'bad': '0', 'pos': nz // 2})
+            P({'op': 'b58check', 'version': 0, 'payload': '00' * 1200, 'multi': [], 'light': True})
+            P({'op': 'b58check', 'version': 0, 'payload': '00' * 1100 + 'ff' * 3, 'multi': [], 'light': True})
         else:
             # every program length 2..40 for versions 1..16 at codec level, three prefixes
             for hrp in ('bc', 'tb', 'bcrt'):
@@ -237,6 +247,9 @@ class Chan(Engine):
         ctx.check(got == ('ok', ver, payload), 'C10.inverse', 'text form of (version %d, %d-byte payload) does not decode back to it: %r' % (ver, len(payload), got[:2]), plen=len(payload))
         ctx.log(0, 0, 'b58check', '', 'len%d' % len(text))
         n = len(text)
+        if a.get('light'):
+            ctx.nontrivial = True
+            return
         # --- the single-edit fault grid on the text
         cnt = 0
         for p in range(n):
@@ -635,6 +648,48 @@ class Chan(Engine):
             raise
         except Exception as e:
             ctx.check(False, 'C11.codec', 'CBech32Data raised %s on a corrupted address' % type(e).__name__)
+
+    def _op_caseless(self, a):
+        """An address without a single letter: prefix, version character, data and checksum all digits or
+        punctuation.  Such a string is neither lower nor upper case - and certainly not mixed case.  Found
+        by searching programs whose 5-bit groups and checksum all map to digit characters."""
+        ctx, SA = self.ctx, self.SA
+        hrp, ver, n = a['hrp'], a['ver'], a['nbytes']
+        digits = [i for i, c in enumerate(CS) if c.isdigit()]
+        ngroups = n * 8 // 5            # n is a multiple of 5: no padding bits
+        x = a['seed'] | 1
+        found = None
+        for _ in range(60000):
+            groups = []
+            for _g in range(ngroups):
+                x = (x * 1103515245 + 12345) & 0x7fffffff
+                groups.append(digits[(x >> 8) % len(digits)])
+            data = [ver] + groups
+            if all(g in digits for g in RB32.checksum(hrp, data)):
+                found = data
+                break
+        if found is None:
+            ctx.probe('caseless-not-found')
+            return
+        prog = RB32.from5(found[1:])
+        want = RB32.encode(hrp, ver, prog)
+        assert not any(c.isalpha() for c in want)
+        if RB32.decode(hrp, want) != (ver, prog):
+            ctx.probe('caseless-invalid-by-reference')
+            return
+        try:
+            text = SA.encode(hrp, ver, prog)
+        except Exception as e:
+            text = 'raised %s' % type(e).__name__
+        ctx.carry()
+        ctx.check(text == want, 'C11.codec', 'encode of the letter-free address %r gives %r' % (want, text), ver=ver, plen=len(prog), caseless=True)
+        ctx.check(self._dec(hrp, want) == (ver, prog), 'C11.case', 'the letter-free (hence single-case) address %r is not decoded' % want, ver=ver, plen=len(prog), caseless=True)
+        for q in (1, 3, len(want) - 2):
+            c = '2' if want[-q] != '2' else '3'
+            self._b32_judge(hrp, want[:len(want) - q] + c + want[len(want) - q + 1:], 'letter-free, with character -%d substituted' % q, (ver, prog), True, fault='sub1')
+        ctx.fault('letter-free-address')
+        ctx.nontrivial = True
+        ctx.log(0, 0, 'caseless', [hrp, ver, n], 'ok')
 
     def _op_steered(self, a):
         """Programs chosen so that the CHECKSUM takes a particular value (a random program never does):
